@@ -167,6 +167,7 @@ def b_dict(ex, st, args, kwargs, cx, node):
         r = o.r(d)
         for a in ("$map", "$dom", "$len", "$keys", "$pos"):
             st.wr(a, r, st.rd(a, src))
+        d.aux = args[0].aux
         yield st, d
         return
     raise Unsupported("dict(...) form")
@@ -364,10 +365,11 @@ def d_get(ex, st, recv, args, kwargs, cx):
     r = o.r(recv)
     k = args[0].e
     has = o.dict_has(st, r, k)
+    ex.content_facts(st, recv, k)
     dflt = args[1].e if len(args) > 1 else ex.w.V.none
     v = z3.If(has, o.dict_get(st, r, k), dflt)
     st = st.clone()
-    st.assume(z3.Implies(ex.w.V.is_ref(v), ex.w.V.r(v) <= st.alloc))
+    st.assume(z3.Implies(ex.w.V.is_ref(v), z3.And(ex.w.V.r(v) > 0, ex.w.V.r(v) <= st.alloc)))
     yield st, SV(v)
 
 
